@@ -176,7 +176,7 @@ func (g *Gen) atom(b *BaseType, col string) (Atom, bool) {
 
 func isIndexLike(col string) bool {
 	switch col {
-	case "name", "cname", "iname", "ib", "gname", "pname":
+	case "name", "cname", "iname", "ib", "gname", "pname", "fname":
 		return true
 	}
 	return false
@@ -488,10 +488,32 @@ func (g *Gen) opKeyInAndOut(table, target string) []Op {
 func (g *Gen) opUpdate(t *Table) []Op {
 	row := map[string]any{}
 	n := 1 + g.pick(3)
+	// a client that writes a row back with one field changed: some columns
+	// carry exactly the value the addressed row holds already
+	where := g.where(t)
+	target := ""
+	if len(where) == 1 {
+		if c, ok := where[0].([]any); ok && len(c) == 3 && c[0] == "_uuid" {
+			if u, ok := c[2].([]any); ok && len(u) == 2 && u[0] == "uuid" {
+				target, _ = u[1].(string)
+			}
+		}
+	}
+	if target != "" && g.st[t.Name][target] != nil && g.chance(400) {
+		n += 1 + g.pick(2)
+	} else {
+		target = ""
+	}
 	for i := 0; i < n; i++ {
 		c := t.Columns[t.ColNames[g.pick(len(t.ColNames))]]
 		if c.Immutable {
 			continue
+		}
+		if target != "" && i > 0 {
+			if cur, ok := g.st[t.Name][target][c.Name]; ok {
+				row[c.Name] = g.wire(c, cur, 800)
+				continue
+			}
 		}
 		v, ok := g.value(c)
 		if !ok {
@@ -502,7 +524,7 @@ func (g *Gen) opUpdate(t *Table) []Op {
 	if len(row) == 0 {
 		return nil
 	}
-	return []Op{{"op": "update", "table": t.Name, "where": g.where(t), "row": row}}
+	return []Op{{"op": "update", "table": t.Name, "where": where, "row": row}}
 }
 
 func (g *Gen) mutation(c *Column) []any {
